@@ -1,4 +1,5 @@
 import Spake2Verif.Proofs.PropAuxA
+import Spake2Verif.Proofs.ProtoFlowTie
 /-!
 # C02 — Any mismatch or in-flight tampering prevents agreement on a key
 
@@ -603,5 +604,13 @@ example :
     (((Inst.new (G := toyG) .S [1] [7] [] toyParams ⟨[4]⟩).start.1.finish [83, 2]).2).toOption.isSome
       = true :=
   toy_k1b
+
+/-- Tie A: the `start()` / `finish()` reasoned about above are those of the *source* -- the model's state machine
+equals the translation of the method bodies of `_SPAKE2_Base.start`, `compute_outbound_message`, `finish`, the role
+accessors and `_finalize` (flag tests and sets, order of effects, blinding / unblinding element per class, the
+reflection test and its position, `K = (Y* + N·(-pw))·x`, transcript arguments per class), for every group -/
+theorem start_finish_are_the_source {G : Group} :
+    @Inst.start G = ProtoFlowTie.flowStart ∧ @Inst.finish G = ProtoFlowTie.flowFinish :=
+  ⟨ProtoFlowTie.start_is_source, ProtoFlowTie.finish_is_source⟩
 
 end Spake2Verif.C02
